@@ -310,6 +310,16 @@ def _libmem_gen():
     return libmem_common._libmem_gen()
 
 
+def _flush_gen():
+    rc, out, _ = sh([tool('flush2coq'), '-root', REPO, '-out', os.path.join(GEN, 'Gen_Flush.v')])
+    if rc != 0 and os.path.exists(os.path.join(GEN, 'Gen_Flush.v')):
+        os.remove(os.path.join(GEN, 'Gen_Flush.v'))
+    return ('flush2coq', rc == 0, out.strip())
+
+
+EXTRA_TRANSLATORS.append(_flush_gen)
+
+
 def _register_optional():
     import importlib.util
     if importlib.util.find_spec('libmem_common') is not None and _libmem_gen not in EXTRA_TRANSLATORS:
